@@ -178,10 +178,9 @@ Definition dir_move (colon at_ : bool) (ps : list param) (c : ctl) : pres :=
       else let np := if colon then (c_apos c - n)%Z
                      else if at_ then (if changed then n else 0%Z)
                      else (c_apos c + n)%Z in
-           (* site: the Go code does not check the new position; the definition makes leaving 0..len an error *)
+           (* leaving 0..len is an error: "move directive leaves the argument list" *)
            let inside := (0 <=? np)%Z && (np <=? nargs c)%Z in
-           if inside then Ok (set_apos c np, false)
-           else if b then Ok (add_taint (set_apos c np) true, false) else terr c
+           if inside then Ok (set_apos c np, false) else err c
   | (GErr, _) => err c
   | (GUnsup, _) => Unsup
   end.
